@@ -130,6 +130,11 @@ type Runner struct {
 	// such as the condition in a [syntax.IfClause].
 	noErrExit bool
 
+	// inNegated is true while running a command preceded by "!". Failing
+	// commands inside it, such as in a function body, do not trigger
+	// [optErrExit], but unlike [Runner.noErrExit] they still run the ERR trap.
+	inNegated bool
+
 	// The current and last exit statuses. They can only be different if
 	// the interpreter is in the middle of running a statement. In that
 	// scenario, 'exit' is the status for the current statement being run,
@@ -1024,6 +1029,7 @@ func (r *Runner) subshell(background bool) *Runner {
 		inFunc:         r.inFunc,
 		inSource:       r.inSource,
 		noErrExit:      r.noErrExit,
+		inNegated:      r.inNegated,
 
 		origStdout: r.origStdout, // used for process substitutions
 	}
